@@ -1205,6 +1205,28 @@ func (g *G) keyOps(i int, k *ty.Ty) {
 			g.ow.op("keys", tn, g.vg.Inst(m).Wire())
 			n++
 		}
+		// bool-valued maps (also with a named bool): a key whose value is false is a key like any other; maps with
+		// only false values, with false among true values, in both insertion orders
+		for vi, vt := range []*ty.Ty{ty.B("bool"), ty.N(3)} {
+			tnb := fmt.Sprintf("M%c%d", "BN"[vi], i)
+			gv := vt.Go(env, "main")
+			fmt.Fprintf(g.prelude, "ty %s %s\n", tnb, ty.M(k, vt).Wire())
+			fmt.Fprintf(q, "\nfunc Keys%c_%d(m map[%s]%s) []%s { return deriveKeys%c_%d(m) }\n", "BN"[vi], i, gk, gv, gk, "BN"[vi], i)
+			fmt.Fprintf(g.m, "\trt.Reg(\"keys\", %q, rt.Keys(%s.Keys%c_%d))\n", tnb, qn, "BN"[vi], i)
+			for mode := 0; mode < 3; mode++ {
+				cnt := 0
+				for _, m := range g.keyMaps(kpool, func() *ty.Val {
+					cnt++
+					return &ty.Val{K: ty.VBool, Bool: mode == 1 && cnt%2 == 0 || mode == 2 && cnt%3 != 0}
+				}) {
+					if len(m.Elems) == 0 && mode > 0 {
+						continue
+					}
+					g.stat("keys-bool-valued-maps", 1)
+					g.ow.op("keys", tnb, g.vg.Inst(m).Wire())
+				}
+			}
+		}
 	}
 	if g.want["union"] || g.want["intersect"] {
 		tn := fmt.Sprintf("K%d", i)
@@ -1265,13 +1287,18 @@ func main() {
 		// a ==-comparable struct whose Equal takes an interface{} (the gogo/protobuf shape that plugin/equal calls) and
 		// looks at the first field only (hand-written, value receiver: consistency ops only), and a struct holding one
 		&ty.Decl{Name: "UI", Pkg: "", Under: ty.St(ty.F("A", b("int")), ty.F("B", b("string")))},
-		&ty.Decl{Name: "WI", Pkg: "", Under: ty.St(ty.F("V", n(shadow0+9)), ty.F("N", b("int")))})
+		&ty.Decl{Name: "WI", Pkg: "", Under: ty.St(ty.F("V", n(shadow0+9)), ty.F("N", b("int")))},
+		// a struct whose own Compare (pointer parameter) returns the DIFFERENCE of the first fields: derived Compare on RD,
+		// and on a struct that holds one, takes values below -1 and above 1 (hand-written: consistency ops only)
+		&ty.Decl{Name: "RD", Pkg: "", Under: ty.St(ty.F("A", b("int")), ty.F("B", b("string")))},
+		&ty.Decl{Name: "WD", Pkg: "", Under: ty.St(ty.F("V", n(shadow0+11)), ty.F("N", b("int")))})
 	word, key, bb, rt, rc := n(shadow0), n(shadow0+1), n(shadow0+2), n(shadow0+3), n(shadow0+4)
 	uh, wh, cs, csh := n(60), n(shadow0+6), n(shadow0+7), n(shadow0+8)
 	if env.Decls[60].Name != "UH" {
 		must(fmt.Errorf("gen.Lib: declaration 60 is %s, expected UH", env.Decls[60].Name))
 	}
 	ui, wi := n(shadow0+9), n(shadow0+10)
+	rd, wd := n(shadow0+11), n(shadow0+12)
 	nu64 := n(46)
 	localSrc := map[string]string{"RC": `
 func (this *RC) Compare(that *RC) int {
@@ -1305,6 +1332,20 @@ func fold(s string) string {
 		}
 	}
 	return string(b)
+}
+
+`, "RD": `
+func (this *RD) Compare(that *RD) int {
+	if this == nil {
+		if that == nil {
+			return 0
+		}
+		return -1
+	}
+	if that == nil {
+		return 1
+	}
+	return this.A - that.A
 }
 
 `, "UI": `
@@ -1425,7 +1466,13 @@ func (this CSH) Hash() int32         { return int32(len(this)) }
 	for k := range folded {
 		acs = append(acs, &ty.Val{K: ty.VArr, Elems: []*ty.Val{folded[k], folded[(k+2)%len(folded)]}})
 	}
-	g.pools = map[string][]*ty.Val{"CS": folded, "CSH": folded, "UI": uis, "WI": wis,
+	var rds, wds []*ty.Val
+	for k, a := range []int64{0, 2, 5, -3, 7, 2, 100, -40} {
+		r := uiv(a, []string{"", "a"}[k/5%2])
+		rds = append(rds, r)
+		wds = append(wds, &ty.Val{K: ty.VStruct, Elems: []*ty.Val{r, {K: ty.VInt, Int: fmt.Sprint(k % 2)}}})
+	}
+	g.pools = map[string][]*ty.Val{"CS": folded, "CSH": folded, "UI": uis, "WI": wis, "RD": rds, "WD": wds,
 		ty.Ar(2, ui).Wire(): ais, ty.Ar(2, csh).Wire(): acs,
 		// slices of CSH: not ==-comparable, so Unique buckets by the derived hash, which must ask every element's own Hash
 		ty.Sl(csh).Wire(): {slice([]*ty.Val{folded[0]}, 0), slice([]*ty.Val{folded[1]}, 0), nilv(), slice(nil, 0),
@@ -1475,7 +1522,7 @@ func (this CSH) Hash() int32         { return int32(len(this)) }
 			idx++
 			// element types with a Compare method of another order than the fields (value elements), and with a
 			// Compare taking an interface: consistency ops only
-			for _, t := range []*ty.Ty{rc, n(39)} {
+			for _, t := range []*ty.Ty{rc, n(39), rd, wd} {
 				g.cmpOps(idx, t, true)
 				idx++
 			}
